@@ -148,7 +148,7 @@ CHECKS = {
         "supply PDSxxxx KEYS are covered end to end by C01_roundtrip_pds (every sub-element comes back with its value, "
         "wherever carrier boundaries fall; carrier hypotheses discharged for the packaged configuration by decide). Tied "
         "to /repo by differential execution over every single "
-        "bit, every pair, boundary/every length, 6 codecs x 2 bitmap forms, packaged + generated configurations.",
+        "bit, every pair, boundary/every length, 6 codecs x 2 bitmap forms, packaged + generated configurations. In addition a SOURCE TIE for the bitmap conversion: harness/pytrans.py translates the current Python text of BitArray.tolist / fromlist (which go through one big integer) into Lean (Gen/Src.lean) on every run and lean/Cardutil/SrcTie/Bits.lean proves, for all inputs, that the translation equals the byte-by-byte model (tolist_eq, fromlist_eq) and restates the bitmap clause for the translated code (C01_source_bits_roundtrip, C02_source_bitmap, C02_source_bitmap_read); when the source changes so that this no longer checks, the check runs its thorough generators (time-boxed) before answering (the correspondence remains the deciding tie).",
         "Trusted: Lean kernel; standard axioms; hand-written model; strptime(strftime d)=d is a hypothesis of WFField.date "
         "(validated differentially); DE43 keys applied by Python's re in the harness.",
         "DESIGN.md §8 C01"),
@@ -160,7 +160,7 @@ CHECKS = {
         "++ elements with bit 1 set and bit n set iff element n is emitted; the hex form is 32 lowercase hex characters; "
         "a variable value with 10^w or more characters is refused with the library error (Props/C02.lean). Tied to /repo by "
         "comparison with an independent reference encoder/decoder on the C01 streams plus short fixed values and over-long "
-        "values on every variable element.",
+        "values on every variable element. In addition a SOURCE TIE for the bitmap conversion: harness/pytrans.py translates the current Python text of BitArray.tolist / fromlist (which go through one big integer) into Lean (Gen/Src.lean) on every run and lean/Cardutil/SrcTie/Bits.lean proves, for all inputs, that the translation equals the byte-by-byte model (tolist_eq, fromlist_eq) and restates the bitmap clause for the translated code (C01_source_bits_roundtrip, C02_source_bitmap, C02_source_bitmap_read); when the source changes so that this no longer checks, the check runs its thorough generators (time-boxed) before answering (the correspondence remains the deciding tie).",
         "Trusted: as C01; harness/isoutil.py ref_encode/ref_decode written from the documentation.",
         "DESIGN.md §8 C02"),
     'C08': (
